@@ -275,7 +275,7 @@ def same_canon(a, b, rel=1e-12):
 # ------------------------------------------------------------------------------------------------ running one member of a pair
 def build_script(sd):
     import strengths as st
-    return st.rdscript_from_dict(copy.deepcopy(sd))
+    return st.rdscript_from_dict(L.spell_units_keys(sd))       # every level's units key under one of its accepted aliases
 
 
 def refused_state_assignment(system):
@@ -594,6 +594,7 @@ def break_desc(rng, desc):
 
 def compare_pair(ctx, a, b, phys, case, changed):
     lv = ",".join(changed) or "none"
+    lv += "; units keys as handed to the package — A: %s — B: %s" % (L.spelled_levels(case["A"]), L.spelled_levels(case["B"]))
     if case.get("refused_state_assignment_on"):
         lv += "; a wrong-dimension state assignment was attempted (and must have been refused without effect) on member " + case["refused_state_assignment_on"]
     for tag, m in (("A", a), ("B", b)):
@@ -645,6 +646,25 @@ def compare_pair(ctx, a, b, phys, case, changed):
         if du != su or tu != su:
             ctx.violation("units:output-system", "the trajectory of member %s is reported in %s / %s, the script's units system is %s" % (tag, du, tu, su), case)
             return
+    # ---- the first Euler step of each member against the physical system: x1 = x0 + dt*rate(x0); a non-finite value is a finding
+    import math
+    for tag, m, sd in (("A", a, case["A"]), ("B", b, case["B"])):
+        if len(m["traj"]) < 2:
+            continue
+        x0s = a["state"] if tag == "A" else b["state"]
+        for e, v in enumerate(m["traj"][1]):
+            exp = x0s[e] if m["chem"][e] else x0s[e] + m["dt_si"] * orc[e][0]
+            mag = abs(x0s[e]) + m["dt_si"] * orc[e][1]
+            if abs(exp) > Fraction(10) ** 150:
+                continue
+            if not math.isfinite(v):
+                ctx.violation("units:trajectory-non-finite", "member %s (script units %s): Euler sample 1 entry %d is %r; x0 + dt*rate(x0) on the described physical system "
+                              "is %r molecules" % (tag, sd.get("units"), e, v, float(exp)), dict(case, member=tag, sample=1, e=e), impl=repr(v), expected=float(exp))
+                return
+            if not close(v, exp, mag, rel=1e-8):
+                ctx.violation("units:trajectory-physical", "member %s (script units %s): Euler sample 1 entry %d is %r molecules; x0 + dt*rate(x0) on the described "
+                              "physical system is %r" % (tag, sd.get("units"), e, v, float(exp)), dict(case, member=tag, sample=1, e=e), impl=v, expected=float(exp))
+                return
     # the run completes when t > t_max (physical): number of recorded samples of `nsteps` iterations
     for tag, m, sd in (("A", a, case["A"]), ("B", b, case["B"])):
         ts = sd.get("t_sample")
